@@ -61,6 +61,9 @@ int main(int argc, char** argv) {
             break; }
         default: break;
         }
+        // a quarter of the cases ask for clamped interpolation (a no-op in the CPU kick maps of this tree, a limiter where implemented):
+        // whatever it does, it must do it to every bunch of a train as to a bunch on its own
+        if ((c / (K_NKINDS * 4)) % 3 == 1) { s.clamp = true; M.ev("cases_with_clamped_interpolation"); }
         M.begin_case(c, s.descr());
         const size_t nn = (size_t)s.n * s.n, N = nn * s.nb;
         std::vector<float> data(N), train_out(N), train_out2;
@@ -74,6 +77,22 @@ int main(int argc, char** argv) {
         {
             vh::set_grid(s.n, s.nb);
             Built b = build(s, s.nb);
+            // a third of the kick cases give the map object a history first: an update in which all bunches (or the trailing ones) had
+            // bit-identical fields (all zero, or copies of one block) and one application - what the map does now must not depend on it
+            if ((s.kind == K_KICKX || s.kind == K_KICKY || s.kind == K_WAKE) && (c / K_NKINDS) % 3 == 2 && s.nb > 1) {
+                std::fill(b.in->getData(), b.in->getData() + N, 0.0f);
+                if (s.kind == K_WAKE) { b.in->updateXProjection(); b.wake->update(); }       // no charge: every bunch's wake is exactly zero
+                else {
+                    std::vector<float> pre(s.off.size(), 0.0f);
+                    int how = (int)r.range(0, 2);
+                    if (how >= 1) for (uint32_t bb = (how == 1 ? 0 : 1); bb < s.nb; bb++)
+                        std::copy(s.off.begin() + (size_t)(how == 1 ? 0 : 1) * s.n, s.off.begin() + (size_t)(how == 1 ? 1 : 2) * s.n, pre.begin() + (size_t)bb * s.n);
+                    if (how == 2) std::copy(s.off.begin(), s.off.begin() + s.n, pre.begin());
+                    b.kick->swapOffset(pre);
+                }
+                b.map->apply();
+                M.ev("maps_with_an_earlier_update_of_identical_fields");
+            }
             std::copy(data.begin(), data.end(), b.in->getData());
             if (s.kind == K_KICKX || s.kind == K_KICKY) { auto o = s.off; b.kick->swapOffset(o); }
             if (s.kind == K_WAKE) { b.in->updateXProjection(); b.wake->update(); }
